@@ -217,8 +217,18 @@ def roundtrip(tg, data, work, fmt, blanks, keep, thr, k):
     dmode = "rename" if (k // 5) % 3 == 0 else "error"
     # option strings that are equal to the documented values without being the same objects (they came from a config file, argv ...)
     fmt_arg, smode = ((fmt + "_")[:-1], (smode + "_")[:-1]) if k % 3 == 0 else (fmt, smode)
+    cwd = os.getcwd()
+    dest = fn1
+    if k % 5 == 2:
+        # the destination as a bare file name in the current directory / as a relative path
+        os.chdir(str(work))
+        dest = os.path.basename(fn1) if k % 2 else os.path.join(".", os.path.basename(fn1))
+        REC.cls("C01:destination-relative-to-cwd")
     try:
-        tg.save(fn1, fmt_arg, blanks, None, None, thr, smode)
+        try:
+            tg.save(dest, fmt_arg, blanks, None, None, thr, smode)
+        finally:
+            os.chdir(cwd)
     except Exception as e:
         rec = {"snap": snap.tg_snap(tg), "format": fmt, "blanks": blanks, "minT": None, "maxT": None, "thr": thr}
         if judgeable(rec) is None:
